@@ -106,9 +106,16 @@ def build(case, tmp):
     settings_w = dict(settings)
     x_inplace = x_text
     if inner == "include":
+        sliced = bool(case.get("slice"))
         with open(os.path.join(tmp, "xfile.md"), "w") as fh:
-            fh.write(x_text + "\n")
-        inc_block = {"t": "directive", "name": "include", "arg": "xfile.md", "raw": "", "opts": [], "optstyle": "colon",
+            if sliced:
+                # X is the part of the file between two occurrences of one marker text (the end text is looked for
+                # *after* the start text)
+                fh.write("skipped head\n\nMARKX\n\n" + x_text + "\n\nMARKX\n\nskipped tail\n")
+            else:
+                fh.write(x_text + "\n")
+        inc_block = {"t": "directive", "name": "include", "arg": "xfile.md", "raw": "",
+                     "opts": [("start-after", "MARKX"), ("end-before", "MARKX")] if sliced else [], "optstyle": "colon",
                      "fence": "`", "len": 3, "blank": 0, "ch": None}
         core_blocks = [inc_block]
         if case.get("twice"):
@@ -302,6 +309,8 @@ def case_st(draw, inner=None):
     case = {"x": x, "inner": inner, "layers": layers, "outer_use": draw(st.booleans())}
     # (not for X that defines link references: whether a definition made in a nested parse is visible to text parsed
     # earlier is the recorded finding about definition order, and the second copy would see the first copy's definitions)
+    if inner == "include" and draw(st.integers(0, 3)) == 0:
+        case["slice"] = True
     if inner == "include" and draw(st.integers(0, 2)) == 0 and not any(b["t"] == "refdef" for b in mdgen.walk_blocks(x)):
         case["twice"] = True
         case["outer_use"] = False     # (the extra definitions would be duplicates of themselves)
